@@ -34,7 +34,7 @@ class NohBlackBoxEos(ExactSolver):
             self.solver = newton_solver() # Each instance owns its Newton solver; a solver shared by all instances leaks tolerance and iteration state between them.
             self.eos = equation_of_state
             self.symmetry = initial_conditions['symmetry']
-            self.initial_conditions =initial_conditions # Maybe refactor this later so users can change initial conditions. For now focus on black box eos interaction.
+            self.initial_conditions = dict(initial_conditions) # Keep a private copy, so that solvers built from the same dictionary (or the shared default) stay independent. Maybe refactor this later so users can change initial conditions. For now focus on black box eos interaction.
             self.residual_funciton = pressure_noh_residual(self.initial_conditions, self.eos)
 
             if self.geometry not in [1, 2, 3]:
@@ -99,21 +99,21 @@ class NohBlackBoxEos(ExactSolver):
 
 class PlanarNohBlackBox(NohBlackBoxEos):
     def __init__(self,equation_of_state, initial_conditions = {'density': 1, 'velocity': -1, 'pressure': 0}):
-        initial_conditions['symmetry'] = 0
+        initial_conditions = dict(initial_conditions, symmetry = 0) # Do not write into the caller's (or the shared default) dictionary
         super().__init__(equation_of_state, initial_conditions)
     parameters = NohBlackBoxEos.parameters
     geometry = 1
 
 class CylindricalNohBlackBox(NohBlackBoxEos):
     def __init__(self, equation_of_state, initial_conditions = {'density': 1, 'velocity': -1, 'pressure': 0}):
-        initial_conditions['symmetry'] = 1
+        initial_conditions = dict(initial_conditions, symmetry = 1) # Do not write into the caller's (or the shared default) dictionary
         super().__init__(equation_of_state, initial_conditions)
     parameters = NohBlackBoxEos.parameters
     geometry = 2
 
 class SphericalNohBlackBox(NohBlackBoxEos):
     def __init__(self, equation_of_state, initial_conditions = {'density': 1, 'velocity': -1, 'pressure': 0}):
-        initial_conditions['symmetry'] = 2
+        initial_conditions = dict(initial_conditions, symmetry = 2) # Do not write into the caller's (or the shared default) dictionary
         super().__init__(equation_of_state, initial_conditions)
     parameters = NohBlackBoxEos.parameters
     geometry = 3
